@@ -1,7 +1,7 @@
 (* Props/C16.v — Async chain and take behave like tokio's own under every Pending pattern and every ReadBuf.
    ReadBuf and tokio's Chain/Take are transcriptions of tokio 1.53.1 (Sem/ReadBuf.v, Spec/TokioAdapters.v), modelled and held to the
    real types by the harness. *)
-From FB Require Import Sem.Base Sem.Lemmas Sem.ReadBuf Model.Tokio Model.Pinned Spec.TokioAdapters Facets.TokioAdapters.
+From FB Require Import Sem.Base Sem.Lemmas Sem.ReadBuf Model.Tokio Model.Pinned Spec.TokioAdapters Facets.TokioAdapters Facets.AStreams.
 Open Scope Z_scope.
 
 (* chain: one poll = one poll of tokio's Chain, for ALL inner streams keeping the ReadBuf contract (same slice, filled only grows),
@@ -35,6 +35,31 @@ Theorem c16_tokio_take_observable : forall RWS (R2 : AsyncReader RWS) (AA : AARe
     (match tokio_take_poll_read R2 buf w with Val a w' => Val a (tt_limit w', tt_inner w') | Panic w' => Panic (tt_limit w', tt_inner w') end).
 Proof. exact @tokio_take_observable. Qed.
 
+(* stream level: for ANY two inner streams that — polled with any well-formed ReadBuf — either answer Pending leaving the filled part
+   alone, or append a prefix of a fixed remaining sequence after the untouched filled bytes (progress when there is room and something
+   is left), the chain is again such a stream, of remaining(first) ++ remaining(second): all of first, then all of second, under every
+   pattern of Pending, for every ReadBuf, zero remaining capacity included *)
+Theorem c16_chain_stream : forall S1 S2 chk (A1 : AsyncReader S1) rem1 ok1 (A2 : AsyncReader S2) rem2 ok2,
+  async_prefix_source A1 rem1 ok1 -> async_prefix_source A2 rem2 ok2 ->
+  async_prefix_source (ACH2 chk A1 A2) (rem_ach rem1 rem2) (ok_ach ok1 ok2).
+Proof. exact @achain_prefix_source. Qed.
+
+(* non-vacuity: byte lists with Pending marks are such streams; a chain of two of them polled with 3-byte ReadBufs *)
+Fixpoint poll_all (n : nat) (w : @acw (list Z * list bool) (list Z * list bool)) (acc : list Z) : list Z :=
+  match n with
+  | O => acc
+  | S m =>
+    match prd (ACH2 true marked_rd marked_rd) w (rb_new (repeat 0 3)) with
+    | (AROk b', w') => poll_all m w' (acc ++ rb_filled_bytes b')
+    | (ARPending _, w') => poll_all m w' acc
+    | _ => acc
+    end
+  end.
+Example c16_chain_stream_ex :
+  async_prefix_source marked_rd fst (fun _ => True) /\
+  poll_all 12 (achain_new ([65; 66; 67; 68], [true; false; true]) ([99; 100], [true; true])) [] = [65; 66; 67; 68; 99; 100].
+Proof. split; [exact marked_rd_source|vm_compute; reflexivity]. Qed.
+
 (* the pre-fix chain is refuted at a zero-capacity ReadBuf: first "AB", second "cd": a capacity-0 poll, then two capacity-8 polls *)
 Definition lrd (l : list Z) : AsyncReader (list Z) := {| prd := fun st b =>
   let n := Z.min (rb_remaining b) (zlen st) in
@@ -57,3 +82,4 @@ Print Assumptions c16_chain_pending_only_from_inner.
 Print Assumptions c16_take_observable.
 Print Assumptions c16_tokio_take_observable.
 Print Assumptions c16_pinned_refuted.
+Print Assumptions c16_chain_stream.
